@@ -65,6 +65,9 @@ var plConfigs = []string{
 	`{"users":{"%S":"50","%T":" 7 "},"ban":"50","kick":50.9}`,
 	`{"users":{"%T":10},"users_default":50}`,
 	`{"users":{"%S":51,"%T":50,"@x:a.org":0},"invite":0}`,
+	// levels at the ends of the int64 range (a rule written as level+1 or -level wraps there)
+	`{"users":{"%S":50,"%T":9223372036854775807}}`,
+	`{"users":{"%S":9223372036854775807,"%T":9223372036854775806},"ban":9223372036854775807,"users_default":-9223372036854775808}`,
 }
 
 func plSE(cfg int, sender, target string) (authgen.SE, bool) {
